@@ -101,8 +101,20 @@ def post_target(ctx, rec, with_grad=True):
     boundary: the instance's logd / gradient are wrapped by logging, fault-injectable probes that call the real bound
     methods; the reference functions are the same methods of a separately built twin."""
     prec = dict(rec, prior=rec.get("prior", "gauss_vec"), m=rec["dim"] + 1, model="matrix")
-    post, _ = lin_posterior(Ctx(0), prec)
-    twin, _ = lin_posterior(Ctx(0), prec)
+    if rec["kind"] == "post_const":
+        # the posterior is what a hierarchical joint reduces to once data and hyper-parameter are fixed: it carries the
+        # evaluated hyper-prior as an additive constant (logd = logpdf + constant)
+        def mk():
+            A, y = _lin_data(prec)
+            x = _prior(prec)
+            s_ = Gamma(2.0, 1.0, name="s")
+            yy = Gaussian(LinearModel(A)(x), cov=lambda s: 1 / s, name="y")
+            return JointDistribution(yy, x, s_)(y=y, s=1.7), None
+        post, _ = mk()
+        twin, _ = mk()
+    else:
+        post, _ = lin_posterior(Ctx(0), prec)
+        twin, _ = lin_posterior(Ctx(0), prec)
     real_logd, real_grad = post.logd, post.gradient
     ref_logd = lambda x: float(np.ravel(np.asarray(twin.logd(np.asarray(x, float).reshape(-1)), float))[0])
     ref_grad = lambda x: np.asarray(twin.gradient(np.asarray(x, float).reshape(-1)), float).reshape(-1)
@@ -158,7 +170,7 @@ def geom_post_target(ctx, rec):
 
 def ud_target(ctx, rec, with_grad=True):
     """UserDefinedDistribution whose callables are probes.  rec: {kind, dim, zseed}."""
-    if rec["kind"] == "post":
+    if rec["kind"] in ("post", "post_const"):
         return post_target(ctx, rec, with_grad)
     if rec["kind"] in ("post_step", "post_mapped"):
         return geom_post_target(ctx, rec)
@@ -302,7 +314,7 @@ def gen_exp_scenario(r, kind=None, dim_max=5):
     t, k = sc["target"], sc["knobs"]
     ip = [round(r.uniform(-1, 1), 3) for _ in range(dim)]
     if kind in ("MH", "CWMH", "ULA", "MALA", "NUTS"):
-        t["kind"] = r.choice(DENSITY_KINDS + ["post"] + (["boxed", "boxed"] if kind in ("MH", "CWMH", "MALA") else [])
+        t["kind"] = r.choice(DENSITY_KINDS + ["post", "post_const"] + (["boxed", "boxed"] if kind in ("MH", "CWMH", "MALA") else [])
                              + (["post_step", "post_mapped"] if kind in ("MH", "CWMH") else []))
         if t["kind"] == "boxed" and kind in ("MH", "CWMH") and r.random() < 0.4:
             ip = [round(v * 6, 3) for v in ip]            # possibly a start value of zero density (outside the support)
